@@ -1,1 +1,138 @@
-// filled in below
+//! c10-vectored (bounded): the iterator-based vectored code that is outside the Verus subset
+//! (`default_set_len`, `IoVectoredBuf::slice`, `IoVectoredBufMut::slice_mut`, `VectoredSlice`, tuple `set_len`,
+//! `VectoredBufIter`).  Bounds: 2 members, capacities 2 and 3 (tuples: 2 and 2), all lengths, all begins.
+use compio_buf::*;
+
+const C0: usize = 2;
+const C1: usize = 3;
+
+fn mk(cap: usize, len: usize, tag: u8) -> Vec<u8> {
+    let mut v = Vec::with_capacity(cap);
+    kani::assume(v.capacity() == cap);
+    let mut i = 0;
+    while i < len { v.push(tag + i as u8); i += 1; }
+    v
+}
+fn any_le(n: usize) -> usize { let x: usize = kani::any(); kani::assume(x <= n); x }
+
+/// slice_mut(begin) + dense fill + set_len(n): the n bytes land at concatenation positions [begin, begin+n),
+/// no member gets a length beyond its capacity
+#[kani::proof]
+#[kani::unwind(7)]
+pub fn vectored_slice_mut_set_len() {
+    let (l0, l1) = (any_le(C0), any_le(C1));
+    let mut bufs = [mk(C0, l0, 10), mk(C1, l1, 20)];
+    assert!(bufs.total_capacity() == C0 + C1);
+    let begin = any_le(C0 + C1);
+    let mut vs = bufs.slice_mut(begin);
+    // writable region of the view == concatenation shifted by begin
+    let mut total = 0usize;
+    for s in vs.iter_uninit_slice() { total += s.len(); }
+    assert!(total == C0 + C1 - begin);
+    let n = any_le(total);
+    let mut k = 0usize;
+    for s in vs.iter_uninit_slice() {
+        let mut j = 0;
+        while j < s.len() && k < n { s[j].write(0xE0 + k as u8); j += 1; k += 1; }
+    }
+    unsafe { SetLen::set_len(&mut vs, n) };
+    let bufs = vs.into_inner();
+    assert!(bufs[0].len() <= C0 && bufs[1].len() <= C1);
+    let mut p = begin;
+    while p < begin + n {
+        let b = if p < C0 { assert!(bufs[0].len() > p); bufs[0][p] } else { assert!(bufs[1].len() > p - C0); bufs[1][p - C0] };
+        assert!(b == 0xE0 + (p - begin) as u8);
+        p += 1;
+    }
+}
+
+/// default_set_len on a plain array of buffers: dense assignment of min(len, total capacity)
+#[kani::proof]
+#[kani::unwind(7)]
+pub fn default_set_len_dense() {
+    let mut bufs = [mk(C0, 0, 10), mk(C1, 0, 20)];
+    // make every byte defined so that growing the length is sound in the harness
+    for b in bufs.iter_mut() { for c in b.spare_capacity_mut() { c.write(7); } }
+    let n = any_le(C0 + C1 + 2);
+    unsafe { SetLen::set_len(&mut bufs, n) };
+    let want = if n > C0 + C1 { C0 + C1 } else { n };
+    assert!(bufs[0].len() <= C0 && bufs[1].len() <= C1);
+    assert!(bufs[0].len() + bufs[1].len() == want);
+    assert!(bufs[0].len() == if want > C0 { C0 } else { want });
+}
+
+/// IoVectoredBuf::slice(begin): skips `begin` INITIALIZED bytes; the view iterates the rest of the concatenation
+#[kani::proof]
+#[kani::unwind(7)]
+pub fn vectored_slice_read() {
+    let (l0, l1) = (any_le(C0), any_le(C1));
+    let bufs = [mk(C0, l0, 10), mk(C1, l1, 20)];
+    assert!(bufs.total_len() == l0 + l1);
+    let begin = any_le(l0 + l1);
+    let vs = bufs.slice(begin);
+    assert!(vs.begin() == begin);
+    let mut p = begin;
+    for s in vs.iter_slice() {
+        let mut j = 0;
+        while j < s.len() {
+            let want = if p < l0 { 10 + p as u8 } else { 20 + (p - l0) as u8 };
+            assert!(s[j] == want);
+            p += 1; j += 1;
+        }
+    }
+    assert!(p == l0 + l1);
+}
+
+/// tuple SetLen: (T, Rest) distributes head-first, never beyond a member's capacity
+#[kani::proof]
+#[kani::unwind(5)]
+pub fn tuple_set_len() {
+    let mut t = (mk(2, 0, 0), (mk(2, 0, 0),));
+    for c in t.0.spare_capacity_mut() { c.write(1); }
+    for c in (t.1).0.spare_capacity_mut() { c.write(2); }
+    let n = any_le(4);
+    unsafe { SetLen::set_len(&mut t, n) };
+    assert!(t.0.len() == if n > 2 { 2 } else { n });
+    assert!((t.1).0.len() == n - t.0.len());
+}
+
+/// VectoredBufIter visits every member exactly once, in order, and hands the buffers back unchanged
+#[kani::proof]
+#[kani::unwind(5)]
+pub fn iter_visits_members_in_order() {
+    let (l0, l1) = (any_le(C0), any_le(C1));
+    let bufs = [mk(C0, l0, 10), mk(C1, l1, 20)];
+    let p0 = bufs[0].as_ptr() as usize;
+    let p1 = bufs[1].as_ptr() as usize;
+    let mut it = match bufs.owned_iter() { Ok(it) => it, Err(_) => { assert!(false); return; } };
+    assert!(it.as_init().len() == l0 && it.as_init().as_ptr() as usize == p0);
+    assert!(it.as_uninit().len() == C0 && it.as_uninit().as_ptr() as usize == p0);
+    let mut it = match it.next() { Ok(it) => it, Err(_) => { assert!(false); return; } };
+    assert!(it.as_init().len() == l1 && it.as_init().as_ptr() as usize == p1);
+    assert!(it.as_uninit().len() == C1 && it.as_uninit().as_ptr() as usize == p1);
+    match it.next() {
+        Ok(_) => assert!(false),
+        Err(b) => assert!(b[0].len() == l0 && b[1].len() == l1),
+    }
+}
+
+/// VectoredBufIter as a *view*: after a fill of k bytes the one contract must hold (prefix, lengths);
+/// then next() + a fill of the second member.  KNOWN FINDING F2 on the pinned tree.
+#[kani::proof]
+#[kani::unwind(5)]
+pub fn iter_view_contract_after_fill() {
+    let bufs = [mk(C0, 0, 10), mk(C1, 0, 20)];
+    let mut it = match bufs.owned_iter() { Ok(it) => it, Err(_) => { assert!(false); return; } };
+    let k = any_le(C0);
+    {
+        let dst = it.as_uninit();
+        let mut i = 0;
+        while i < k { dst[i].write(0xA0 + i as u8); i += 1; }
+    }
+    unsafe { SetLenExt::advance_to(&mut it, k) };
+    let (ip, il) = { let s = it.as_init(); (s.as_ptr() as usize, s.len()) };
+    let (up, ul) = { let s = it.as_uninit(); (s.as_ptr() as usize, s.len()) };
+    assert!(ip == up, "VectoredBufIter: initialized bytes are a prefix of the writable region");
+    assert!(il == k, "VectoredBufIter: recorded bytes are visible");
+    assert!(il <= ul);
+}
